@@ -1,4 +1,200 @@
+(* props/C11.v — C11: native histograms are stored and read back faithfully.
+   Theorems about the model model/HistChunk.v (semantic layer of tsdb/chunkenc/histogram*.go,
+   float_histogram*.go, histogram_meta.go). *)
 From Coq Require Import List ZArith Bool Lia.
-From Verif Require Import model.HistChunk proof.HistChunkProofs.
+From Verif Require Import model.HistChunk proof.HistChunkProofs proof.HistChunkIns
+  proof.HistChunkDelta proof.HistChunkMaps proof.HistChunkCounter proof.HistChunkAdjust proof.HistChunkReencode proof.HistChunkSeq.
 Import ListNotations.
 Open Scope Z_scope.
+
+(* addBucket (the closure that builds mergedSpans in expandSpansBothWays and the result of
+   adjustForInserts) rebuilds exactly the bucket indices it is fed, for ANY index sequence;
+   together with [idxs] being the bucketIterator this is "span layout <-> bucket indices". *)
+Theorem C11_spans_of_roundtrip : forall l : list Z, idxs (spans_of l) = l.
+Proof. exact idxs_spans_of. Qed.
+Example C11_spans_of_roundtrip_ex :
+  spans_of [-3; -2; 0; 4; 5; 6] = [mkSpan (-3) 2; mkSpan 1 1; mkSpan 3 3] /\
+  idxs [mkSpan (-3) 2; mkSpan 0 0; mkSpan 1 1; mkSpan 3 2; mkSpan 0 1] = [-3; -2; 0; 4; 5; 6].
+Proof. split; reflexivity. Qed.
+
+(* valid span lists (Histogram.Validate: no negative offset except in the first span) yield
+   strictly increasing bucket indices, one per unit of span length *)
+Theorem C11_valid_spans_increasing : forall l,
+  wf_spans l -> (exists lo, incr lo (idxs l)) /\ Z.of_nat (length (idxs l)) = count_spans l.
+Proof.
+  intros l H. split; [now apply idxs_incr|]. apply idxs_from_length. now apply wf_spans_len.
+Qed.
+
+(* insert() on delta-encoded integer buckets = insert() on the absolute counts *)
+Theorem C11_insert_deltas_are_prefix_sums : forall inp l i v v',
+  match ins_body true i v inp l, ins_body false i v' (prefix_sums v inp) l with
+  | Ok w, Ok wa => wa = prefix_sums v w
+  | Panic, Panic => True
+  | Fuel, Fuel => True
+  | _, _ => False
+  end.
+Proof. intros. exact (ins_body_rel inp i v v' l). Qed.
+Example C11_insert_deltas_ex :
+  insert_go true [6; -3; 0] [mkIns 2 2 0; mkIns 3 1 0] 6 = Ok [6; -3; -3; 0; 3; -3] /\
+  prefix_sums 0 [6; -3; -3; 0; 3; -3] = [6; 3; 0; 0; 3; 0] /\
+  insert_go false [6; 3; 3] [mkIns 2 2 0; mkIns 3 1 0] 6 = Ok [6; 3; 0; 0; 3; 0].
+Proof. repeat split; reflexivity. Qed.
+
+(* C11_bucket_map_preserved, gauge path (appendableGauge -> expandSpansBothWays -> recode with
+   the forward inserts / recodeHistogram with the backward inserts), for integer (delta) and
+   float (absolute) buckets alike and for ALL valid span layouts a (chunk) and b (new sample):
+   the call never panics or diverges; mergedSpans covers exactly the buckets of a and b;
+   applying the forward inserts to ANY bucket slice laid out on a (every stored sample) and the
+   backward inserts to ANY slice laid out on b (the new sample) fills the widened slice exactly
+   and leaves the absolute bucket map (index -> count, absent = 0) unchanged. *)
+Theorem C11_bucket_map_preserved_gauge : forall a b,
+  wf_spans a -> wf_spans b ->
+  exists F B M,
+    expand_both a b = Ok (F, B, M) /\
+    (forall i, In i (idxs M) <-> In i (idxs a) \/ In i (idxs b)) /\
+    (forall k buckets, Z.of_nat (length buckets) = count_spans a ->
+       exists out, insert_go (is_deltas k) buckets F (count_spans M) = Ok out /\
+                   Z.of_nat (length out) = count_spans M /\ same_map k M out a buckets) /\
+    (forall k buckets, Z.of_nat (length buckets) = count_spans b ->
+       exists out, insert_go (is_deltas k) buckets B (count_spans M) = Ok out /\
+                   Z.of_nat (length out) = count_spans M /\ same_map k M out b buckets).
+Proof. exact expand_both_correct. Qed.
+Example C11_bucket_map_preserved_gauge_ex :
+  let a := [mkSpan 0 2; mkSpan 2 1] in let b := [mkSpan 1 2; mkSpan 0 0; mkSpan 3 1] in
+  wf_spans a /\ wf_spans b /\
+  expand_both a b = Ok ([mkIns 2 1 0; mkIns 3 1 0], [mkIns 0 1 0; mkIns 2 1 0], [mkSpan 0 3; mkSpan 1 1; mkSpan 1 1]) /\
+  insert_go true [6; -3; 0] [mkIns 2 1 0; mkIns 3 1 0] 5 = Ok [6; -3; -3; 3; -3].
+Proof. cbv [wf_spans wf_tail]. repeat split; try lia; repeat constructor; simpl; lia. Qed.
+
+(* C11_bucket_map_preserved, counter path (appendable -> expandIntSpansAndBuckets /
+   expandFloatSpansAndBuckets -> adjustForInserts -> recode / recodeHistogram).  For ALL valid
+   layouts a (chunk, last bucket values ab) and b (new sample, values bb) of either kind:
+   whenever the expansion answers "ok" there is ONE strictly increasing widened index list M,
+   containing the buckets of a and of b, such that
+   - no forward inserts => M = a's buckets; no backward inserts => M = b's buckets;
+     adjustForInserts(b, backward) returns spans enumerating exactly M (hence in each of the
+     three branches of AppendHistogram the spans handed to recode / recodeHistogram enumerate M);
+   - the forward inserts widen ANY bucket slice laid out on a (i.e. every stored sample) to M,
+     the backward inserts ANY slice laid out on b (the new sample), in delta and in absolute
+     encoding: no panic, output filled exactly, absolute bucket map (index -> count) unchanged. *)
+Theorem C11_bucket_map_preserved_counter : forall k a b ab bb F Bk,
+  wf_spans a -> wf_spans b ->
+  expand_counts k a b ab bb = Ok (Some (F, Bk)) ->
+  exists M,
+    (exists lo, incr lo M) /\ incl (idxs a) M /\ incl (idxs b) M /\
+    (F = [] -> M = idxs a) /\ (Bk = [] -> M = idxs b) /\
+    (exists sp, adjust_for_inserts b Bk = Ok sp /\ idxs sp = M /\ count_spans sp = Z.of_nat (length M)) /\
+    (forall k' buckets, Z.of_nat (length buckets) = count_spans a ->
+       exists out, insert_go (is_deltas k') buckets F (Z.of_nat (length M)) = Ok out /\
+                   length out = length M /\
+                   forall i, lookup i (combine M (abs_counts k' out)) = lookup i (bucket_alist k' a buckets)) /\
+    (forall k' buckets, Z.of_nat (length buckets) = count_spans b ->
+       exists out, insert_go (is_deltas k') buckets Bk (Z.of_nat (length M)) = Ok out /\
+                   length out = length M /\
+                   forall i, lookup i (combine M (abs_counts k' out)) = lookup i (bucket_alist k' b buckets)).
+Proof. exact expand_counts_correct. Qed.
+(* the example of the comment above expandIntSpansAndBuckets, with an unused (zero) bucket of the
+   chunk missing in the new sample: forward AND backward inserts at once *)
+Example C11_bucket_map_preserved_counter_ex :
+  let a := [mkSpan 0 2; mkSpan 2 1; mkSpan 3 2] in let b := [mkSpan 0 3; mkSpan 5 2] in
+  wf_spans a /\ wf_spans b /\
+  expand_counts KInt a b [6; -3; -3; 2; 2] [6; -3; -2; 1; 2] =
+    Ok (Some ([mkIns 2 1 2], [mkIns 3 1 4])) /\
+  adjust_for_inserts b [mkIns 3 1 4] = Ok [mkSpan 0 3; mkSpan 1 1; mkSpan 3 2] /\
+  insert_go true [6; -3; -3; 2; 2] [mkIns 2 1 2] 6 = Ok [6; -3; -3; 0; 2; 2] /\
+  insert_go true [6; -3; -2; 1; 2] [mkIns 3 1 4] 6 = Ok [6; -3; -2; -1; 2; 2].
+Proof. cbv [wf_spans wf_tail]. repeat split; try lia; repeat constructor; simpl; lia. Qed.
+
+(* the counter-path expansion never diverges and, for bucket slices as long as their spans
+   say (Histogram.Validate), never panics *)
+Theorem C11_expand_counts_total : forall k a b ab bb,
+  wf_spans a -> wf_spans b ->
+  Z.of_nat (length ab) = count_spans a -> Z.of_nat (length bb) = count_spans b ->
+  exists r, expand_counts k a b ab bb = Ok r.
+Proof. exact expand_counts_total. Qed.
+
+(* "... however the storage cut or RE-ENCODED chunks."  Full statement for re-encoding (what
+   compaction does with an open or partially covered chunk: iterate it and append every sample,
+   append-only, to a fresh chunk):
+     forall k ops cs c, Forall (fun o => valid_hist (o_h o)) ops -> run k ops = Ok cs -> In c cs ->
+       exists c', reencode k c = Ok (Some c') /\ read_chunk c' = read_chunk c.
+   It is FALSE of the faithful model (and of the code, see notes/C11.md): a gauge chunk that holds
+   a staleness marker appended with the GaugeType hint is built without complaint, but its
+   iterator returns the marker as a bare {Sum: StaleNaN} with hint Unknown, which the append-only
+   appender then refuses to add to a gauge chunk ("histogram schema change"). *)
+Theorem C11_reencode_refuted : exists k ops cs c,
+  Forall (fun o => valid_hist (o_h o)) ops /\ run k ops = Ok cs /\ In c cs /\
+  reencode k c = Ok None.
+Proof.
+  exists KInt, w_ops, [w_chunk], w_chunk.
+  destruct (reencode_witness KInt) as (R & _ & E).
+  split; [exact w_ops_valid|]. split; [exact R|]. split; [now left|exact E].
+Qed.
+
+(* ------------------------------------------------------------------------------------------
+   The sequence-level statements.  [valid_h h]: h is a staleness marker, or its spans are valid
+   (no negative offset except the first), its bucket slices are as long as the spans say and an
+   exponential-schema histogram has no custom values (all enforced by Histogram.Validate).
+   [sem k x t h] (read-back x against the histogram h appended at time t): same timestamp;
+   h stale => x stale; otherwise x not stale and same sum (bits), count, zero count, schema,
+   zero threshold and custom bounds equal as floats (zt_rel: identical bits or ==), and the same
+   absolute bucket map (index -> count, absent = 0) on the positive and on the negative side.
+   [run k ops] appends the ops in order through AppendHistogram / AppendFloatHistogram (k), every
+   op carrying an ARBITRARY "cut a new chunk first" decision (the Head's policy is abstract).  *)
+
+(* C11_roundtrip: for any sequence of valid integer or float histograms (any layouts, schema /
+   threshold / bounds changes, gauge or counter, hints, staleness markers) and any cut decisions,
+   storing never panics or diverges and reading all chunks back yields, position by position,
+   what was appended - however often chunks were cut or recoded on the way. *)
+Theorem C11_roundtrip : forall k ops,
+  Forall (fun o => valid_h (o_h o)) ops ->
+  exists cs, run k ops = Ok cs /\ Forall inv cs /\ Forall2 (sem_op k) (read_series cs) ops.
+Proof. exact run_roundtrip. Qed.
+(* non-vacuity: backward + forward inserts (recode), a staleness marker, a gauge sample *)
+Example C11_roundtrip_ex :
+  let h0 := mkH HUnknown 0 0 [] 3 0 0 [mkSpan 0 2] [] [3; -3] [] in
+  let h1 := mkH HUnknown 0 0 [] 5 0 0 [mkSpan 0 1; mkSpan 1 1] [] [4; -3] [] in
+  let h2 := mkH HUnknown 0 0 [] 0 0 stale_nan [] [] [] [] in
+  let h3 := mkH HGauge 0 0 [] 2 0 0 [mkSpan (-1) 1] [] [2] [] in
+  let ops := [mkOp false 1 h0; mkOp false 2 h1; mkOp false 3 h2; mkOp false 4 h3] in
+  Forall (fun o => valid_h (o_h o)) ops /\
+  match run KInt ops with
+  | Ok cs => map (fun x => (fst x, h_ps (snd x), h_pb (snd x))) (read_series cs) =
+             [(1, [mkSpan 0 3], [3; -3; 0]); (2, [mkSpan 0 3], [4; -4; 1]); (3, [], []); (4, [mkSpan (-1) 1], [2])]
+             /\ length cs = 2%nat
+  | _ => False
+  end.
+Proof.
+  cbn zeta. split; [|vm_compute; split; reflexivity].
+  repeat (constructor; [unfold valid_h; cbn [o_h h_zt h_custom h_sum h_ps h_ns h_pb h_nb h_schema];
+                        split; [lia|]; split; [constructor|];
+                        first [left; reflexivity
+                              |right; cbv [wf_spans wf_tail]; cbn;
+                               repeat first [split | (cbn; lia) | (intros; reflexivity) | constructor]]|]).
+  constructor.
+Qed.
+
+(* one call: for a chunk in the invariant (every chunk the appenders build) and a valid
+   histogram, AppendHistogram succeeds, leaves the caller's histogram semantically unchanged
+   (input_same), and the chunk it appended to / recoded / newly cut satisfies the invariant
+   again and decodes to the old samples (up to re-layout, rd_eq) followed by the new one *)
+Theorem C11_append_step : forall k c t h,
+  inv c -> valid_h h -> exists r, append k c t h = Ok r /\ step_ok k c t h r.
+Proof. exact append_step. Qed.
+
+(* C11_input_unchanged: whatever AppendHistogram does to the histogram it was handed (it
+   replaces spans and bucket slices when backward inserts are needed), the result has the same
+   hint, schema, threshold, bounds, count, zero count, sum, and the same bucket maps *)
+Theorem C11_input_unchanged : forall k c t h r,
+  inv c \/ c_samples c = [] -> valid_h h -> append k c t h = Ok r -> input_same k (fst r) h.
+Proof. exact append_input_same. Qed.
+Example C11_input_unchanged_ex :
+  let h0 := mkH HUnknown 0 0 [] 3 0 0 [mkSpan 0 2] [] [3; -3] [] in
+  let h1 := mkH HUnknown 0 0 [] 4 0 0 [mkSpan 0 1] [] [4] [] in
+  match run KInt [mkOp false 1 h0] with
+  | Ok [c] => match append KInt c 2 h1 with
+              | Ok (h1', Same _) => h_ps h1' = [mkSpan 0 2] /\ h_pb h1' = [4; -4]
+              | _ => False end
+  | _ => False
+  end.
+Proof. vm_compute. split; reflexivity. Qed.
